@@ -298,7 +298,15 @@ impl Ctx {
             OpKind::ReclaimSnap {} => {
                 let (files, blocks) = walrus_rust::wal::verif::reclaim_snapshot();
                 let mut r = ok_res();
-                r.text = Some(serde_json::json!({"files": files, "blocks": blocks}).to_string());
+                // reader state of every live instance: which sealed blocks the consumer has fully passed
+                let mut topics = Vec::new();
+                let insts: Vec<(u32, Arc<Walrus>)> = self.insts.lock().unwrap().iter().map(|(k, v)| (*k, v.clone())).collect();
+                for (i, w) in insts {
+                    for row in w.verif_reader_snapshot() {
+                        topics.push((i, row.0, row.1, row.2, row.3));
+                    }
+                }
+                r.text = Some(serde_json::json!({"files": files, "blocks": blocks, "topics": topics}).to_string());
                 r
             }
             OpKind::RemoveFile { path } => {
